@@ -241,7 +241,7 @@ def rule_effect(facts, cg):
 def run(ctx):
     facts = ctx["facts"]
     cg = CallGraph(facts)
-    return [rule_ro(facts, cg), rule_wmc(facts, cg), rule_effect(facts, cg), rule_iso(facts), rule_seg(facts), rule_cursor(facts, "C14-CURSOR", ["glaredb_core"], 1), rule_rowcount(facts), rule_ctascreate(facts), rule_insertcols(facts), rule_ctasexists(facts), rule_replace(facts), rule_droptype(facts), rule_dupcol(facts), rule_dropschema(facts)]
+    return [rule_ro(facts, cg), rule_wmc(facts, cg), rule_effect(facts, cg), rule_iso(facts), rule_seg(facts), rule_cursor(facts, "C14-CURSOR", ["glaredb_core"], 1), rule_rowcount(facts), rule_ctascreate(facts), rule_insertcols(facts), rule_ctasexists(facts), rule_replace(facts), rule_droptype(facts), rule_dupcol(facts), rule_dropschema(facts), rule_snapshot(facts)]
 
 
 
@@ -419,7 +419,8 @@ CLAIM = {
             " Plus REPLACE: the schema-level create_entry drops the existing entry before creating the replacement."
             " Plus DROPTYPE: DROP TABLE / DROP VIEW remove an entry only after looking at its type."
             " Plus DUPCOL: the CREATE TABLE binder compares declared column names with each other."
-            " Plus DROPSCHEMA: a schema leaves the catalog only after its table map has been inspected.",
+            " Plus DROPSCHEMA: a schema leaves the catalog only after its table map has been inspected."
+            " Plus SNAPSHOT: table scans are bounded by the flushed-segment count observed when their scan state was created (a statement does not scan its own inserts).",
     "note": "trusted: rustc MIR; class-hierarchy call graph; allow-list of mutator callers in rules/c14.py",
     "technique": "static analysis: who-may-call (call graph) + MIR must-pass-through / provenance (rustc_private driver)",
 }
@@ -579,4 +580,70 @@ def rule_dropschema(facts):
         if not ok:
             r.violate(fn.id, "schema-dropped-with-contents", "the schema is removed without looking at what it contains: DROP SCHEMA (no CASCADE) silently drops its tables",
                       rec["file"], rm.line)
+    return r
+
+
+def rule_snapshot(facts):
+    """A statement reads a table as of its start: INSERT INTO t SELECT .. FROM t must not scan the rows it is inserting (it returned a
+    nondeterministic multiple of the rows, or never returned: the scan chased its own flushes). The collection is deliberately
+    scannable while it is appended to (materializations stream through it), so the bound has to come with the *table's* scan state:
+    (a) DataTable::init_parallel_scan_states reaches (depth 3) a read of the flushed-segment count, and (b) scan_inner order-compares a
+    cursor field of the scan state that it advances with a field of the scan state that it never writes (a bound fixed at creation)."""
+    r = RuleResult("C14-SNAPSHOT", "table scans are bounded by the segment count observed when their scan state was created", floor=2)
+    CC = "glaredb_core::arrays::collection::concurrent::"
+    root = facts.fn("glaredb_core::storage::datatable::DataTable::init_parallel_scan_states")
+    si = facts.fn(CC + "ConcurrentColumnCollection::scan_inner")
+    if root is None or si is None:
+        r.missing_anchor("DataTable::init_parallel_scan_states / ConcurrentColumnCollection::scan_inner")
+        return r
+
+    def reads_count(rec, depth=0, seen=None):
+        seen = seen if seen is not None else set()
+        if rec["id"] in seen or depth > 3:
+            return False
+        seen.add(rec["id"])
+        fn = Fn(rec)
+        for c in fn.calls():
+            if c.name.endswith("Vec::<T, A>::len") and c.args and "'segments'" in str(fn.origin(c.args[0], at=c.bb)):
+                return True
+        for c in fn.calls():
+            if c.name.startswith(("glaredb_core::arrays::collection::", "glaredb_core::storage::datatable::")):
+                sub = facts.fn(c.name)
+                if sub is not None and reads_count(sub, depth + 1, seen):
+                    return True
+        return False
+    ok_a = reads_count(root)
+    r.functions.add(root["id"])
+    r.inst({"fn": root["id"], "reads_flushed_segment_count": ok_a}, ok_a)
+    if not ok_a:
+        r.violate(root["id"], "scan-state-without-snapshot", "the table's scan states are created without looking at how many segments are flushed: a scan running "
+                  "in the same statement as an append to the table also returns the appended rows (INSERT INTO t SELECT .. FROM t)", root["file"], root["line"])
+    fn = Fn(si)
+    r.functions.add(fn.id)
+    written = set()
+    for b, i, pl, rv, ln in fn.assigns():
+        for p_ in (pl[1] if len(pl) > 1 else []):
+            if isinstance(p_, list) and p_[0] == "f" and p_[2].endswith("ColumnCollectionScanState"):
+                written.add(p_[1])
+
+    def state_field(op, b):
+        if op[0] not in ("c", "m"):
+            return None
+        o = fn.origin(op, at=b)
+        if o[0] == "arg" and len(o) > 2:
+            for p_ in o[2]:
+                if isinstance(p_, list) and p_[0] == "f" and p_[2].endswith("ColumnCollectionScanState"):
+                    return p_[1]
+        return None
+    bounds = []
+    for b, i, pl, rv, ln in fn.assigns():
+        if rv[0] == "bin" and rv[1] in ("Lt", "Le", "Gt", "Ge"):
+            fa, fb = state_field(rv[2], b), state_field(rv[3], b)
+            if fa and fb and ((fa in written) != (fb in written)):
+                bounds.append((fa, fb))
+    ok_b = bool(bounds)
+    r.inst({"fn": fn.id, "cursor_vs_fixed_bound": [list(x) for x in bounds], "fields_advanced": sorted(written)}, ok_b)
+    if not ok_b:
+        r.violate(fn.id, "scan-unbounded", "scan_inner never compares its segment cursor with a bound fixed when the scan state was created: it follows every segment "
+                  "flushed while it runs", si["file"], si["line"])
     return r
